@@ -12,7 +12,8 @@ from .. import weaver_common as W
 from ..core import fmt_list, parse_rats, frac, err_kind, close, exact, floats
 
 ID = "C13"
-MODULES = ["TWV.Properties.C13"]
+MODULES = ["TWV.Properties.C13", "TWV.Tie.ProcessFns", "TWV.Tie.WeaverStep"]
+TRANSLATORS = ["t10_process", "t9_weaver"]
 RULE = ("(a) process.interpolate for the four methods on lattice series of 4..16 points with sorted new grids mixing knots, "
         "mid-points and points beyond the range on both sides (for cubic/spline the harness evaluates SciPy itself with the "
         "arguments the model says are forwarded and hands the values to the model as data), unknown method names, affine "
